@@ -15,8 +15,8 @@ THEOREMS = [
     "BSVerif.Props.C04.unguarded_cast_back_is_ub",
     "BSVerif.Props.C04.float_widen_total",
     "BSVerif.Props.C04.float_narrow_cases",
-    "BSVerif.Props.C04.float_narrow_full_refuted",
-    "BSVerif.Props.C04.float_narrow_partial",
+    "BSVerif.Props.C04.float_narrow_full",
+    
     "BSVerif.Props.C04.convTo_total",
     "BSVerif.Props.C04.tryTo_spec",
     "BSVerif.Props.C04.policy_total",
